@@ -143,15 +143,12 @@ def F04():
 _F13_CHILD = r"""
 import sys; sys.path.insert(0, %r)
 from typing import Union
-from ovld import ovld
-class A: pass
-class B: pass
-class C: pass
+from ovld import ovld, Dependent
 @ovld
-def h(x: Union[A, B]): return "AB"
+def h(x: Union[bool, str]): return "U"
 @ovld
-def h(x: Union[B, C]): return "BC"
-try: print(h(B()))
+def h(x: Dependent[int, lambda x: True]): return "D"
+try: print(h(True))
 except Exception as e: print("EXC", type(e).__name__)
 """
 
